@@ -6,22 +6,23 @@ open Driver
 def fieldsOf (line : String) : List String :=
   (line.splitOn " ").filter (· ≠ "")
 
-partial def loopPure (h : IO.FS.Stream) (out : IO.FS.Stream) : IO Unit := do
+partial def loopPure (step : List String → String) (h : IO.FS.Stream) (out : IO.FS.Stream) : IO Unit := do
   let line ← h.getLine
   if line.isEmpty then return ()
   let l := line.trimAscii.toString
   if l.isEmpty || l.startsWith "#" then
-    loopPure h out
+    loopPure step h out
   else
     let f := fieldsOf l
     if f.head? == some "reset" then out.putStrLn "reset"
     else if f.head? == some "end" then out.putStrLn (" ".intercalate f)
-    else out.putStrLn (pureStep f)
-    loopPure h out
+    else out.putStrLn (step f)
+    loopPure step h out
 
 def main (args : List String) : IO UInt32 := do
   let stdin ← IO.getStdin
   let stdout ← IO.getStdout
   match args with
-  | ["pure"] => loopPure stdin stdout; return 0
+  | ["pure"] => loopPure pureStep stdin stdout; return 0
+  | ["oracle"] => loopPure oracleStep stdin stdout; return 0
   | _ => IO.eprintln "usage: driver <port> < script"; return 2
